@@ -912,8 +912,33 @@ def fam_closure_state(rnd, n):
     return cs
 
 
+NEVER_VALID = ['$', '@@', '`']      # characters that are no terminal of the grammar at all (the lexer hands them through as themselves)
+CLOSERS = {')': '(', ']': '[', '}': '{'}
+
+
+def pending_openers(prefix):
+    """bracket stack after the given text of ONE flat statement line (no string literals, comments or blocks on it)"""
+    stack = []
+    for ch in prefix:
+        if ch in '([{':
+            stack.append(ch)
+        elif ch in ')]}':
+            if stack and stack[-1] == CLOSERS[ch]:
+                stack.pop()
+            else:
+                return None      # not a line this rule understands
+    return stack
+
+
 def fam_syntax(rnd, n):
-    """a valid program with one stray token inserted at a token boundary of a statement line"""
+    """A valid program with one stray token inserted at a token boundary of a top-level statement line; the expected error
+    position is the stray token itself.  Soundness of that expectation (grammar-aware rule, not a tolerance):
+    the text before the stray token is a prefix of a valid program, so the parser cannot fail earlier; it fails AT the token iff
+    no valid program continues with it.  That holds (a) for characters that are not terminals of the grammar at all, anywhere;
+    (b) for a closer `)` `]` `}` only where NO opener is pending: the candidate line is a complete top-level statement (all lines
+    before it are complete statements, a newline ends a statement outside parentheses), and the bracket stack of the line's prefix is
+    empty.  A closer inside `[ ... ,` would legally end the array (trailing commas are allowed) and move the error to a later
+    token - such positions are never used."""
     cases = []
     tries = 0
     while len(cases) < n and tries < n * 20:
@@ -924,20 +949,44 @@ def fam_syntax(rnd, n):
             continue
         li = rnd.randrange(1, len(lines))     # line 1 has 0-based columns in DebugInfo (see notes), lines >= 2 are 1-based
         line = lines[li]
-        if '"' in line or '{' in line or '(' in line:
-            continue     # keep to flat statements: the error is then certainly reported at the stray token itself
+        if '"' in line or '{' in line or '(' in line or '#' in line or '//' in line or '/*' in line:
+            continue     # flat statements only: no strings, blocks, calls/lambdas/grouping, comments
+        if pending_openers(line) != []:
+            continue     # the untouched line must be balanced
         toks = [m.start() for m in re.finditer(r'(?<= )\S', line)]
         if not toks:
             continue
         pos = rnd.choice(toks)
-        bad = rnd.choice(['$', '@@', '`', ')', ']', '}'])
-        if bad in (')', ']', '}') and rnd.random() < 0.5:
-            bad = '$'
+        stack = pending_openers(line[:pos])
+        if stack is None:
+            continue
+        if rnd.random() < 0.65:
+            bad = rnd.choice(NEVER_VALID)
+        else:
+            bad = rnd.choice(list(CLOSERS))
+            if stack:
+                continue     # an opener is pending here: a closer could be (part of) a valid continuation
         lines[li] = line[:pos] + bad + ' ' + line[pos:]
         src = '\n'.join(lines) + '\n'
         cases.append({'lines': ['dsl_syntax src=%s line=%d col=%d' % (hx(src), li + 1, pos + 1)],
-                      'tags': {'family': 'syntax-position', 'src': src}})
+                      'tags': {'family': 'syntax-position', 'src': src, 'stray': bad, 'pending': ''.join(stack)}})
     return cases
+
+
+def has_prefix_star(src):
+    """conservative: some `*` is not preceded (spaces skipped) by something that can end an operand, i.e. it may be the
+    indirection operator (recorded finding deref-null-reference: `*e` as assignment/call target with e == null crashes)"""
+    if isinstance(src, str):
+        src = src.encode('latin-1', 'replace')
+    for i, ch in enumerate(src):
+        if ch != 0x2a:
+            continue
+        j = i - 1
+        while j >= 0 and src[j] in b' \t':
+            j -= 1
+        if j < 0 or not (chr(src[j]).isalnum() or src[j] in b')]_"'):
+            return True
+    return False
 
 
 def fam_hostile(rnd, n_mut, n_rand):
@@ -976,6 +1025,11 @@ def fam_hostile(rnd, n_mut, n_rand):
     # recorded findings outside the model's language (Json.encode) or with undefined behaviour (iterator invalidation)
     add('var a = []\na.add(a)\nJson.encode(a)\n', 'known:cyclic-json', ('main', 'coro'), True)
     add('var d = {}\nd.x = d\nJson.encode(d)\n', 'known:cyclic-json', ('thread',), True)
+    # `*e = v`, `*e += v`, `(*e)(..)`, `(*e).k = v` with e == null: DerefExpression::GetReference dereferences a null Reference::Ptr
+    for src in ('var x = null\n*x = 1\n', '*this.kc = 1\n', 'var x = null\n*x += 1\n', 'var x = null\n(*x)(1)\n', 'var x = null\n(*x).a = 1\n'):
+        add(src, 'known:deref-null', (rnd.choice(['main', 'thread', 'coro']),), True)
+    for src in ('*null\n', 'var x = 5\n*x = 1\n', 'var x = []\n*x = 1\n', 'var v = 1\nvar p = &v\n*p = 2\nv\n', 'var v = 1\nvar p = &v\n(*p)(1)\n'):
+        add(src, 'deref:neighbour')
     # mutated programs
     done = 0
     while done < n_mut:
@@ -993,6 +1047,9 @@ def fam_hostile(rnd, n_mut, n_rand):
             else:
                 q = rnd.randrange(len(src) + 1)
                 src[p:p] = src[min(p, q):max(p, q)][:40]
+        if has_prefix_star(bytes(src)):
+            done -= 1       # would collide with the recorded deref-null crash: draw another one
+            continue
         add(bytes(src), 'mutated', (rnd.choice(['main', 'thread', 'coro']),))
     kw = [b'var ', b'function ', b'if (', b'else ', b' in ', b'=> ', b'use(', b'{{{', b'}}}', b'{{', b'}}', b'/*', b'*/', b'//', b'#',
           b'"', b'\\', b'\n', b'0x', b'1e9', b'5m', b'.5', b'object ', b'apply ', b'import ', b'include ', b'<a>', b'!in ', b'return ', b'throw ', b'try ', b'except ',
@@ -1004,6 +1061,8 @@ def fam_hostile(rnd, n_mut, n_rand):
             src = b''.join(rnd.choice(kw) if rnd.random() < 0.7 else bytes([rnd.randrange(32, 127)]) for _ in range(rnd.randint(1, 25)))
         if b'include' in src or b'library' in src or b'debugger' in src or b'object' in src or b'template' in src or b'apply' in src:
             src = src.replace(b'include', b'inclde').replace(b'library', b'librry').replace(b'debugger', b'debuger').replace(b'object', b'objct').replace(b'template', b'templte').replace(b'apply', b'aply')
+        if has_prefix_star(src):
+            src = src.replace(b'*', b'+')
         add(src, 'random', (rnd.choice(['main', 'thread', 'coro']),))
     return cases
 
@@ -1084,6 +1143,7 @@ def classify(case, detail, impl_lines):
     if 'crash' in detail:
         if 'model=abort:cycle' in detail: return 'cyclic-traversal'
         if 'tag=known:cyclic-json' in detail: return 'cyclic-traversal'
+        if 'tag=known:deref-null' in detail: return 'deref-null-reference'
         if 'hostile' in detail:
             m = re.search(r'tag=(\S+)', detail)
             tag = m.group(1) if m else 'hostile'
